@@ -52,8 +52,18 @@ BOUNDS = {
 CAPS = {'thorough': 1500}
 
 
+E2E = {'quick': [dict(A=1, S=3, Lmax=3), dict(A=2, S=2, Lmin=2, Lmax=2)], 'thorough': [dict(A=1, S=3, Lmax=4), dict(A=2, S=2, Lmax=3)]}
+
+
 def shards(tier, seed):
-    return traces.make_shards(BOUNDS[tier], 600 if tier == 'quick' else 4000)
+    out = traces.make_shards(BOUNDS[tier], 600 if tier == 'quick' else 4000)
+    # end-to-end: the same histories concretised as real trajectories (inner fraction 0.5, diffusing species NOT the
+    # first atoms of the trajectory), through transitions_between_sites and then the jump classifier
+    for sh in traces.make_shards(E2E[tier], 120 if tier == 'quick' else 600):
+        sh['e2e'] = True
+        sh['M'] = [0, 2]
+        out.append(sh)
+    return out
 
 
 def real_jumps(tr, m):
@@ -119,8 +129,69 @@ def check_trace(trace, S, M):
     return viols, tuple(keys)
 
 
+E2E_SITES = [(0.0031, 0.0047, 0.0023), (0.4331, 0.4747, 0.0023), (0.9831, 0.5347, 0.4123)]
+
+
+def check_e2e(trace, S, M):
+    from .. import concretise
+    from ..ref import geom
+
+    viols = []
+    if not hop.change_log(trace):
+        return viols, ('nochange',)
+    Mx = geom.from_parameters(5, 6, 7, 70, 80, 100)
+    A = len(trace[0])
+    try:
+        coords = concretise.concretise(trace, Mx, np.array(E2E_SITES[:S]), [0.6] * S, 0.5, framework=[(0.31, 0.29, 0.33), (0.8, 0.15, 0.2)])
+    except concretise.Unrealisable:
+        return viols, ('unrealisable',)
+    order = [A, A + 1] + list(range(A))  # framework atoms first
+    traj = concretise.make_trajectory(coords[:, order, :], ['S', 'P'] + ['Li'] * A, Mx)
+    sites = concretise.make_sites(np.array(E2E_SITES[:S]), ['A', 'B', 'A'][:S], Mx)
+    try:
+        tr = traj.transitions_between_sites(sites, 'Li', site_radius=0.6, site_inner_fraction=0.5)
+    except Exception as e:  # noqa: BLE001
+        return [(f'e2e-transitions-raise-{type(e).__name__}', str(e))], ('raise',)
+    o, i = hop.state_arrays(trace)
+    if np.asarray(tr.states).tolist() != o or np.asarray(tr.inner_states).tolist() != i:
+        return [('e2e-states-not-those-of-the-history', f'states {np.asarray(tr.states).tolist()} inner {np.asarray(tr.inner_states).tolist()} expected {o} {i}')], ('states',)
+    D = hop.default_jumps(trace)
+    Dkeys = {(a, oo, d, s) for a, oo, d, s, _ in D}
+    keys = []
+    prev = None
+    for m in M:
+        try:
+            rows = real_jumps(tr, m)
+        except Exception as e:  # noqa: BLE001
+            viols.append((f'e2e-jumps-raise-{type(e).__name__}', f'm={m}: {e}'))
+            continue
+        keys.append(tuple(rows))
+        for a, oo, d, s, e in rows:
+            if (a, oo, d, s) not in Dkeys or o[s][a] != oo or o[e][a] != d:
+                viols.append(('e2e-jump-not-a-default-jump-or-inconsistent', f'm={m} row={(a, oo, d, s, e)} default={D}'))
+                break
+        if prev is not None and not set(rows) <= set(prev):
+            viols.append(('e2e-residence-adds-jumps', f'm={m}'))
+        prev = rows
+    return viols, tuple(keys)
+
+
 def run_shard(shard) -> Result:
     res = Result()
+    if shard.get('e2e'):
+        S, M = shard['S'], shard['M']
+        for n, trace in enumerate(traces.iter_shard(shard)):
+            impl.clear_weak_caches()
+            viols, key = check_e2e(trace, S, M)
+            res.evals += len(M)
+            res.traces += 1
+            res.outcome(hash(('e2e', key)))
+            for kind, detail in viols:
+                res.violation(kind, {'trace': trace, 'n_sites': S, 'M': M, 'e2e': True}, detail)
+        res.states += traces.tree_nodes(shard)
+        res.transitions += traces.tree_nodes(shard)
+        res.stats['e2e_traces'] += res.traces
+        return res
     S, M = shard['S'], shard['M']
     impl.clear_weak_caches()
     for n, trace in enumerate(traces.iter_shard(shard)):
@@ -139,5 +210,8 @@ def run_shard(shard) -> Result:
 
 
 def replay(case):
+    if case.get('e2e'):
+        viols, _ = check_e2e(case['trace'], case['n_sites'], case['M'])
+        return [{'kind': k, 'detail': d} for k, d in viols]
     viols, _ = check_trace(case['trace'], case['n_sites'], case['M'])
     return [{'kind': k, 'detail': d} for k, d in viols]
